@@ -1,27 +1,61 @@
 #!/bin/bash
 # usage: check.sh <ID> <quick|thorough>   |   check.sh replay <path>
 # exit 0: property held on everything explored; 1: VIOLATION line(s) printed; 2: machinery failure.
+# The thorough tier has two passes: first the quick space with harness and interpreter built WITHOUT
+# debug assertions and overflow checks (profile verifrel / the release binary; evidence in
+# evidence/<ID>.release.json), then the thorough space under the profile of the repository's own test
+# suite. A violation in either pass ends the check with exit 1.
 # VERIF_FROZEN_DIR=<dir> (maintenance only, see tools/freeze.sh): run <dir>/mc against <dir>/ruschm
 # without rebuilding, so that a long run is not affected by later rebuilds from a changed /repo.
+release_pass() { # $1 = mc binary, $2 = ruschm binary, $3 = ID
+  local out rc
+  out=$(MC_PROFILE_TAG=release RUSCHM_BIN="$2" "$1" check "$3" --tier quick 2>&1); rc=$?
+  echo "$out" | grep -v "^KNOWN-FINDING"
+  RELEASE_NOTE="release-profile pass (quick space, harness and interpreter without debug assertions / overflow checks): $(echo "$out" | grep "^$3 quick" | tail -1)"
+  return $rc
+}
 if [ -n "$VERIF_FROZEN_DIR" ]; then
+  if [ "$1" = "replay" ]; then
+    if grep -q '"profile": "release"' "$2" 2>/dev/null; then RUSCHM_BIN="$VERIF_FROZEN_DIR/ruschm-release" exec "$VERIF_FROZEN_DIR/mc-release" replay "$2"; fi
+    RUSCHM_BIN="$VERIF_FROZEN_DIR/ruschm" exec "$VERIF_FROZEN_DIR/mc" replay "$2"
+  fi
+  if [ "${2:-quick}" = "thorough" ] && [ -x "$VERIF_FROZEN_DIR/mc-release" ]; then
+    release_pass "$VERIF_FROZEN_DIR/mc-release" "$VERIF_FROZEN_DIR/ruschm-release" "$1" || exit $?
+    export MC_EXTRA_NOTE="$RELEASE_NOTE"
+  fi
   export RUSCHM_BIN="$VERIF_FROZEN_DIR/ruschm"
-  if [ "$1" = "replay" ]; then exec "$VERIF_FROZEN_DIR/mc" replay "$2"; fi
   exec "$VERIF_FROZEN_DIR/mc" check "$1" --tier "${2:-quick}"
 fi
 cd /verif/mc || exit 2
 export CARGO_NET_OFFLINE=true
 export RUSTFLAGS="--cfg ruschm_verif"
 mkdir -p /verif/target
-if ! cargo build --profile verif --offline -q 2>/verif/target/build.log; then
-  echo "MACHINERY-ERROR build failed (see /verif/target/build.log)"; tail -30 /verif/target/build.log; exit 2
+build_mc() { # $1 = profile
+  if ! cargo build --profile "$1" --offline -q 2>/verif/target/build.log; then
+    echo "MACHINERY-ERROR build failed (see /verif/target/build.log)"; tail -30 /verif/target/build.log; exit 2
+  fi
+}
+build_bin() { # $1 = "" | --release
+  if ! CARGO_TARGET_DIR=/verif/target/repo-bin cargo build --manifest-path /repo/Cargo.toml --bin ruschm $1 --offline -q 2>/verif/target/build-bin.log; then
+    echo "MACHINERY-ERROR build of ruschm binary failed"; tail -30 /verif/target/build-bin.log; exit 2
+  fi
+}
+needs_bin() { case "$1" in C14|C17|C18) return 0;; *) return 1;; esac; }
+if [ "$1" = "replay" ]; then
+  if grep -q '"profile": "release"' "$2" 2>/dev/null; then
+    build_mc verifrel; build_bin --release
+    RUSCHM_BIN=/verif/target/repo-bin/release/ruschm exec /verif/target/verifrel/mc replay "$2"
+  fi
+  build_mc verif; build_bin ""
+  exec /verif/target/verif/mc replay "$2"
 fi
-MC=/verif/target/verif/mc
-if [ "$1" = "replay" ]; then exec $MC replay "$2"; fi
 ID="$1"; TIER="${2:-quick}"
-case "$ID" in
-  C14|C17|C18)
-    if ! CARGO_TARGET_DIR=/verif/target/repo-bin cargo build --manifest-path /repo/Cargo.toml --bin ruschm --offline -q 2>/verif/target/build-bin.log; then
-      echo "MACHINERY-ERROR build of ruschm binary failed"; tail -30 /verif/target/build-bin.log; exit 2
-    fi ;;
-esac
-exec $MC check "$ID" --tier "$TIER"
+if [ "$TIER" = "thorough" ]; then
+  build_mc verifrel
+  if needs_bin "$ID"; then build_bin --release; fi
+  release_pass /verif/target/verifrel/mc /verif/target/repo-bin/release/ruschm "$ID" || exit $?
+  export MC_EXTRA_NOTE="$RELEASE_NOTE"
+fi
+build_mc verif
+if needs_bin "$ID"; then build_bin ""; fi
+exec /verif/target/verif/mc check "$ID" --tier "$TIER"
